@@ -65,7 +65,9 @@ def c05(cases, res):
             shift, ctrl, caps, num = key_mods(s)
             o = opts_of(s)
             # bounded after a key absorbed in editing mode
-            if s.res == "Absorb" and state_of(s) == "Entering" and len(syms) > o[6]:
+            # (an absorbed key that pushes text out answers Commit: the part that stays obeys the limit too)
+            if s.res in ("Absorb", "Commit") and state_of(s) == "Entering" and pstate in ("Entering", "EnteringSyllable") \
+                    and len(syms) > o[6]:
                 out.append(fail("buffer-exceeds-limit", case, i, "len=%d limit=%d" % (len(syms), o[6])))
             if pstate != "Entering":
                 continue
@@ -139,6 +141,10 @@ def c06(cases, res):
                     if prev.snap.get(k) != s.snap.get(k):
                         out.append(fail("bell-changed-" + k, case, i, "%s: %s -> %s" % (k, prev.snap.get(k), s.snap.get(k))))
                         break
+                else:
+                    # the pre-edit TEXT (the displayed conversion, incl. the alternative Tab put on screen)
+                    if prev.obs and s.obs and prev.obs.get("display") != s.obs.get("display"):
+                        out.append(fail("bell-changed-display", case, i, "%s -> %s" % (prev.obs.get("display"), s.obs.get("display"))))
             if (state_of(prev) == "Entering" and not prev.snap.get("syms") and prev.snap.get("syl") == EMPTY_SYL
                     and code in PASSTHROUGH):
                 idle += 1
